@@ -375,3 +375,54 @@ func genC14Wide(g *Kern, r *Rng, tier string) {
 		g.goref("C14", "wide-channel-view", strings.ReplaceAll(bad, " ", "_"), label)
 	}
 }
+
+// genGiant: a buffer of 2^31+9 samples (int8; the pages are never touched, so it costs address space only): lengths,
+// capacities and counts beyond 32 bits, a window near its end, and conversions between it and an 8-sample buffer
+// (C04, C05, C07, C02)
+func genGiant(g *Kern, props string) {
+	n := 1<<31 + 9
+	bad := ""
+	p := try(func() {
+		big := signal.Alloc[int8](signal.Allocator{Channels: 1, Length: n, Capacity: n + 2})
+		if big.Len() != n || big.Length() != n || big.Cap() != n+2 || big.Capacity() != n+2 {
+			bad = fmt.Sprintf("mono: Len=%d Length=%d Cap=%d Capacity=%d want %d %d %d %d", big.Len(), big.Length(), big.Cap(), big.Capacity(), n, n, n+2, n+2)
+		}
+		big.AppendSample(5)
+		if bad == "" && (big.Len() != n+1 || big.Length() != n+1 || big.Sample(n) != 5) {
+			bad = fmt.Sprintf("after AppendSample: Len=%d Length=%d", big.Len(), big.Length())
+		}
+		st := signal.Alloc[int8](signal.Allocator{Channels: 2, Length: n/2 + 3, Capacity: n/2 + 3})
+		if bad == "" && (st.Len() != 2*(n/2+3) || st.Length() != n/2+3 || st.Capacity() != n/2+3) {
+			bad = fmt.Sprintf("stereo: Len=%d Length=%d Capacity=%d", st.Len(), st.Length(), st.Capacity())
+		}
+		w := big.Slice(n-4, n)
+		if bad == "" && (w.Length() != 4 || w.Capacity() != 6) {
+			bad = fmt.Sprintf("window near the end: Length=%d Capacity=%d", w.Length(), w.Capacity())
+		}
+		small := signal.Alloc[int16](signal.Allocator{Channels: 1, Length: 8, Capacity: 8})
+		for i := 0; i < 8; i++ {
+			small.SetSample(i, int16(256*(i+1)))
+		}
+		if ret := signal.SignedAsSigned(small, big); bad == "" && ret != 8 {
+			bad = fmt.Sprintf("SignedAsSigned(8 samples -> giant) returned %d", ret)
+		}
+		for i := 0; i < 8 && bad == ""; i++ {
+			if big.Sample(i) != int8(i+1) {
+				bad = fmt.Sprintf("SignedAsSigned(8 samples -> giant): position %d holds %d want %d", i, big.Sample(i), i+1)
+			}
+		}
+		back := signal.Alloc[int16](signal.Allocator{Channels: 1, Length: 8, Capacity: 8})
+		if ret := signal.SignedAsSigned(big, back); bad == "" && (ret != 8 || back.Sample(7) != 9*256-1) {
+			bad = fmt.Sprintf("SignedAsSigned(giant -> 8 samples) returned %d, last=%d", ret, back.Sample(7))
+		}
+		out := make([]int16, 5)
+		if ret := signal.Read(big, out); bad == "" && (ret != 5 || out[4] != 5) {
+			bad = fmt.Sprintf("Read(giant, 5) returned %d", ret)
+		}
+	})
+	if p != "" {
+		bad = "panic=" + strings.ReplaceAll(p, " ", "_")
+	}
+	g.goref(props, "giant-buffer", strings.ReplaceAll(bad, " ", "_"), fmt.Sprintf("kind=i8 samples=%d", n))
+	runtime.GC()
+}
